@@ -135,121 +135,131 @@ Section EditProofs.
       + right. split; [exact F|]. exists (r :: pre), post. subst. split; [reflexivity|]. cbn. f_equal. exact E.
   Qed.
 
-  (* all records of other kinds are kept, unchanged and in order, and the new records are contiguous *)
-  Lemma replace_all_split : forall l n new res, replace_all' l n new = Some res ->
+  (* ---- generalities on filters ---- *)
+  Lemma filter_true_all : forall (p : A -> bool) l, forallb p l = true -> filter p l = l.
+  Proof.
+    intros p l. induction l as [|x l IH]; intro H; [reflexivity|]. cbn in *. apply andb_true_iff in H. destruct H as [-> H].
+    f_equal. apply IH. exact H.
+  Qed.
+  Lemma filter_false_all : forall (p : A -> bool) l, forallb (fun x => negb (p x)) l = true -> filter p l = [].
+  Proof.
+    intros p l. induction l as [|x l IH]; intro H; [reflexivity|]. cbn in *. apply andb_true_iff in H. destruct H as [H1 H].
+    apply negb_true_iff in H1. rewrite H1. apply IH. exact H.
+  Qed.
+  Lemma forallb_filter : forall (p : A -> bool) l, forallb p (filter p l) = true.
+  Proof. intros p l. induction l as [|x l IH]; [reflexivity|]. cbn. destruct (p x) eqn:E; [cbn; rewrite E|]; exact IH. Qed.
+  Lemma named_not_other : forall n l, forallb (name_is' n) l = true -> forallb (fun x => negb (other n x)) l = true.
+  Proof.
+    intros n l H. induction l as [|x l IH]; [reflexivity|]. cbn in *. apply andb_true_iff in H. destruct H as [H1 H2].
+    unfold other at 1. rewrite H1. cbn. apply IH. exact H2.
+  Qed.
+  Lemma other_not_named : forall n l, forallb (other n) l = true -> forallb (fun x => negb (name_is' n x)) l = true.
+  Proof. intros n l H. exact H. Qed.
+
+  (* ---- the in-place branch ---- *)
+  Lemma subst_filter_other : forall n l it, forallb (name_is' n) it = true ->
+    filter (other n) (subst_named A rname n it l) = filter (other n) l.
+  Proof.
+    intros n. induction l as [|r l IH]; intros it H; [reflexivity|]. cbn [subst_named filter].
+    destruct (name_is' n r) eqn:N.
+    - assert (other n r = false) as O by (unfold other; rewrite N; reflexivity). rewrite O.
+      destruct it as [|x it']; [apply IH; reflexivity|].
+      cbn [forallb] in H. apply andb_true_iff in H. destruct H as [Hx Hit]. cbn [filter].
+      assert (other n x = false) as Ox by (unfold other; rewrite Hx; reflexivity). rewrite Ox. apply IH. exact Hit.
+    - assert (other n r = true) as O by (unfold other; rewrite N; reflexivity). cbn [filter]. rewrite O. f_equal. apply IH. exact H.
+  Qed.
+
+  Lemma subst_filter_name : forall n l it, length it = length (filter (name_is' n) l) -> forallb (name_is' n) it = true ->
+    filter (name_is' n) (subst_named A rname n it l) = it.
+  Proof.
+    intros n. induction l as [|r l IH]; intros it L H.
+    - destruct it; [reflexivity | discriminate].
+    - cbn [subst_named filter] in *. destruct (name_is' n r) eqn:N.
+      + destruct it as [|x it']; [discriminate|]. cbn [length] in L. injection L as L.
+        cbn [forallb] in H. apply andb_true_iff in H. destruct H as [Hx Hit]. cbn [filter]. rewrite Hx. f_equal. apply IH; assumption.
+      + cbn [filter]. rewrite N. apply IH; assumption.
+  Qed.
+
+  Lemma subst_self : forall n l, subst_named A rname n (filter (name_is' n) l) l = l.
+  Proof.
+    intros n. induction l as [|r l IH]; [reflexivity|]. cbn [filter subst_named]. destruct (name_is' n r) eqn:N.
+    - cbv iota. f_equal. exact IH.
+    - f_equal. exact IH.
+  Qed.
+
+  (* a record of another kind keeps its very position *)
+  Definition slot (n : text) (r : A) : option A := if name_is' n r then None else Some r.
+  Lemma subst_in_place : forall n l it, length it = length (filter (name_is' n) l) -> forallb (name_is' n) it = true ->
+    map (slot n) (subst_named A rname n it l) = map (slot n) l.
+  Proof.
+    intros n. induction l as [|r l IH]; intros it L H; [reflexivity|]. cbn [subst_named filter] in *.
+    destruct (name_is' n r) eqn:N.
+    - destruct it as [|x it']; [discriminate|]. cbn [length] in L. injection L as L.
+      cbn [forallb] in H. apply andb_true_iff in H. destruct H as [Hx Hit]. cbn [map]. unfold slot at 1 3. rewrite Hx, N.
+      f_equal. apply IH; assumption.
+    - cbn [map]. f_equal. apply IH; assumption.
+  Qed.
+
+  (* the regrouping branch: all records of other kinds are kept, unchanged and in order, and the new records are contiguous *)
+  Lemma replace_all_split : forall l n new res,
+    Nat.eqb (length new) (length (filter (name_is' n) l)) = false ->
+    replace_all' l n new = Some res ->
     exists pre post, res = pre ++ new ++ post /\ pre ++ post = filter (other n) l.
   Proof.
-    intros l n new res H. unfold replace_all in H.
+    intros l n new res E H. unfold replace_all in H. rewrite E in H.
     destruct (replace_all_go A rname n new true l) as [keep first] eqn:G.
     pose proof (replace_all_go_true n new l) as S. rewrite G in S. cbn [fst snd] in S.
-    destruct S as [[F [K E]] | [F [pre [post [K E]]]]]; subst first.
+    destruct S as [[F [K E']] | [F [pre [post [K E']]]]]; subst first.
     - destruct (index_of n order) as [index|]; [|discriminate]. injection H as <-. subst keep.
-      eexists _, _. split; [reflexivity|]. rewrite firstn_skipn. symmetry. exact E.
+      eexists _, _. split; [reflexivity|]. rewrite firstn_skipn. symmetry. exact E'.
     - injection H as <-. exists pre, post. split; assumption.
   Qed.
 
-  (* ---- replacing all records of a kind by themselves ---- *)
-  Lemma replace_all_go_pre : forall n new pre rest,
-    forallb (other n) pre = true ->
-    replace_all_go A rname n new true (pre ++ rest) =
-    (pre ++ fst (replace_all_go A rname n new true rest), snd (replace_all_go A rname n new true rest)).
+  (* frame of replace_all (both branches): the records of every other kind are unchanged and in order, and the records
+     of kind n are exactly the new ones, in order *)
+  Lemma replace_all_frame_lemma : forall l n new res,
+    forallb (name_is' n) new = true -> replace_all' l n new = Some res ->
+    filter (other n) res = filter (other n) l /\ filter (name_is' n) res = new.
   Proof.
-    intros n new. induction pre as [|r pre IH]; intros rest H.
-    - cbn [app]. destruct (replace_all_go A rname n new true rest); reflexivity.
-    - cbn [forallb] in H. apply andb_true_iff in H. destruct H as [H1 H2]. unfold other in H1. apply negb_true_iff in H1.
-      cbn [app replace_all_go]. rewrite H1. rewrite (IH rest H2). reflexivity.
+    intros l n new res Hn H. destruct (Nat.eqb (length new) (length (filter (name_is' n) l))) eqn:E.
+    - unfold replace_all in H. rewrite E in H. injection H as <-. apply Nat.eqb_eq in E. split.
+      + apply subst_filter_other. exact Hn.
+      + apply subst_filter_name; assumption.
+    - destruct (replace_all_split l n new res E H) as [pre [post [-> EQ]]].
+      pose proof (forallb_filter (other n) l) as FO. rewrite <- EQ, forallb_app in FO. apply andb_true_iff in FO. destruct FO as [Fp Fq].
+      rewrite !filter_app. split.
+      + rewrite (filter_true_all _ pre Fp), (filter_true_all _ post Fq), (filter_false_all _ new (named_not_other n new Hn)). exact EQ.
+      + rewrite (filter_false_all _ pre (other_not_named n pre Fp)), (filter_false_all _ post (other_not_named n post Fq)),
+          (filter_true_all _ new Hn), app_nil_r. reflexivity.
   Qed.
 
-  Lemma filter_other_block : forall n mid post,
-    forallb (name_is' n) mid = true -> forallb (other n) post = true -> filter (other n) (mid ++ post) = post.
+  Lemma replace_all_in_place_lemma : forall l n new,
+    length new = length (filter (name_is' n) l) -> forallb (name_is' n) new = true ->
+    exists res, replace_all' l n new = Some res /\ map (slot n) res = map (slot n) l.
   Proof.
-    intros n. induction mid as [|r mid IH]; intros post Hm Hp.
-    - cbn [app]. clear Hm. induction post as [|x post IHp]; [reflexivity|]. cbn [forallb filter] in *.
-      apply andb_true_iff in Hp. destruct Hp as [-> Hp]. f_equal. apply IHp. exact Hp.
-    - cbn [forallb] in Hm. apply andb_true_iff in Hm. destruct Hm as [H1 H2]. cbn [app filter].
-      unfold other at 1. rewrite H1. cbn [negb]. apply IH; assumption.
+    intros l n new L H. unfold replace_all. rewrite L, Nat.eqb_refl. eexists. split; [reflexivity|]. apply subst_in_place; assumption.
   Qed.
 
-  Lemma replace_all_self_lemma : forall n pre mid post,
-    forallb (other n) pre = true -> forallb (name_is' n) mid = true -> forallb (other n) post = true ->
-    (mid <> [] \/ index_of n order <> None) ->
-    replace_all' (pre ++ mid ++ post) n mid = Some (pre ++ mid ++ post).
-  Proof.
-    intros n pre mid post Hpre Hmid Hpost Hne. unfold replace_all. rewrite replace_all_go_pre by exact Hpre.
-    destruct mid as [|m0 mid'].
-    - cbn [app]. pose proof (replace_all_go_true n [] post) as S.
-      destruct S as [[F [K E]] | [F [p1 [p2 [K E]]]]].
-      + rewrite F, K. destruct Hne as [Hne | Hne]; [contradiction|].
-        destruct (index_of n order) as [index|]; [|contradiction]. cbn [app]. rewrite firstn_skipn. reflexivity.
-      + (* impossible: post has no record named n *)
-        exfalso. clear - F Hpost. induction post as [|x post IH]; [discriminate|]. cbn [forallb] in Hpost.
-        apply andb_true_iff in Hpost. destruct Hpost as [H1 H2]. unfold other in H1. apply negb_true_iff in H1.
-        cbn [replace_all_go] in F. rewrite H1 in F. destruct (replace_all_go A rname n [] true post) as [k f] eqn:G.
-        cbn [snd] in *. apply IH; assumption.
-    - cbn [forallb] in Hmid. apply andb_true_iff in Hmid. destruct Hmid as [H1 H2].
-      cbn [app replace_all_go]. rewrite H1. rewrite replace_all_go_false. cbn [fst snd].
-      rewrite (filter_other_block n mid' post H2 Hpost). reflexivity.
-  Qed.
+  (* replacing all records of kind n by exactly the records of kind n is the identity — no side condition *)
+  Lemma replace_all_self_lemma : forall n l, replace_all' l n (filter (name_is' n) l) = Some l.
+  Proof. intros n l. unfold replace_all. rewrite Nat.eqb_refl. rewrite subst_self. reflexivity. Qed.
 
-  (* the boolean test used by the check implies the decomposition *)
-  Lemma contig_go_2 : forall n l, contig_go A rname n 2 l = true -> forallb (other n) l = true.
-  Proof.
-    intros n. induction l as [|r l IH]; intro H; [reflexivity|]. cbn [contig_go forallb] in *. unfold other at 1.
-    destruct (name_is' n r); [discriminate|]. cbn [negb andb]. apply IH. exact H.
-  Qed.
-
-  Lemma contig_go_1 : forall n l, contig_go A rname n 1 l = true ->
-    exists mid post, l = mid ++ post /\ forallb (name_is' n) mid = true /\ forallb (other n) post = true.
-  Proof.
-    intros n. induction l as [|r l IH]; intro H; [exists [], []; repeat split|]. cbn [contig_go] in H.
-    destruct (name_is' n r) eqn:N.
-    - destruct (IH H) as [mid [post [-> [Hm Hp]]]]. exists (r :: mid), post. repeat split; [|exact Hp]. cbn [forallb]. rewrite N, Hm. reflexivity.
-    - exists [], (r :: l). split; [reflexivity|]. split; [reflexivity|]. cbn [forallb]. unfold other at 1. rewrite N. cbn [negb andb].
-      apply contig_go_2. exact H.
-  Qed.
-
-  Lemma contiguous_split : forall n l, contiguous A rname n l = true ->
-    exists pre mid post, l = pre ++ mid ++ post /\ forallb (other n) pre = true /\
-                         forallb (name_is' n) mid = true /\ forallb (other n) post = true.
-  Proof.
-    intros n. unfold contiguous. induction l as [|r l IH]; intro H; [exists [], [], []; repeat split|].
-    cbn [contig_go] in H. destruct (name_is' n r) eqn:N.
-    - destruct (contig_go_1 n l H) as [mid [post [-> [Hm Hp]]]]. exists [], (r :: mid), post.
-      repeat split; [|exact Hp]. cbn [forallb]. rewrite N, Hm. reflexivity.
-    - destruct (IH H) as [pre [mid [post [-> [H1 [H2 H3]]]]]]. exists (r :: pre), mid, post.
-      repeat split; try assumption. cbn [forallb]. unfold other at 1. rewrite N, H1. reflexivity.
-  Qed.
-
-  Lemma filter_name_block : forall n pre mid post,
-    forallb (other n) pre = true -> forallb (name_is' n) mid = true -> forallb (other n) post = true ->
-    filter (name_is' n) (pre ++ mid ++ post) = mid.
-  Proof.
-    intros n pre mid post H1 H2 H3. rewrite !filter_app.
-    assert (forall l, forallb (other n) l = true -> filter (name_is' n) l = []) as Z.
-    { induction l as [|x l IHl]; intro H; [reflexivity|]. cbn [forallb filter] in *. apply andb_true_iff in H. destruct H as [Hx Hl].
-      unfold other in Hx. apply negb_true_iff in Hx. rewrite Hx. apply IHl. exact Hl. }
-    rewrite (Z pre H1), (Z post H3), app_nil_r. cbn [app].
-    clear - H2. induction mid as [|x mid IH]; [reflexivity|]. cbn [forallb filter] in *. apply andb_true_iff in H2. destruct H2 as [-> H2].
-    f_equal. apply IH. exact H2.
-  Qed.
-
-  (* replacing all records of kind n by exactly the records of kind n is the identity when they are contiguous *)
-  Lemma replace_all_self_contiguous : forall n l,
-    contiguous A rname n l = true -> index_of n order <> None ->
-    replace_all' l n (filter (name_is' n) l) = Some l.
-  Proof.
-    intros n l C I. destruct (contiguous_split n l C) as [pre [mid [post [-> [H1 [H2 H3]]]]]].
-    rewrite (filter_name_block n pre mid post H1 H2 H3). apply replace_all_self_lemma; auto.
-  Qed.
-
-  (* update_abbr_record is the identity when every $ABBREVIATED record is kept, they are contiguous and no new one is needed *)
+  (* ---- update_abbr_record ---- *)
   Variable s_abbr : text.
+  Variable rmap : A -> list (text * text).
+
   Lemma update_abbr_identity_lemma : forall l keep,
-    contiguous A rname s_abbr l = true -> index_of s_abbr order <> None ->
     filter keep (get_records A rname l s_abbr 0) = filter (name_is' s_abbr) l ->
     update_abbr A rname order s_abbr l keep [] = Some l.
+  Proof. intros l keep K. unfold update_abbr. rewrite K, replace_all_self_lemma. reflexivity. Qed.
+
+  (* with the keep decision of the code: when the scan keeps every record and no eta is left without a record, nothing changes *)
+  Lemma update_abbr_record_unmodified_lemma : forall l rv mk,
+    get_records A rname l s_abbr 0 = filter (name_is' s_abbr) l ->
+    abbr_scan A rmap (filter (name_is' s_abbr) l) rv = (filter (name_is' s_abbr) l, []) ->
+    update_abbr_record A rname order s_abbr rmap l rv mk = Some l.
   Proof.
-    intros l keep C I K. unfold update_abbr. rewrite K. rewrite (replace_all_self_contiguous s_abbr l C I). reflexivity.
+    intros l rv mk G S. unfold update_abbr_record. rewrite G, S, replace_all_self_lemma. reflexivity.
   Qed.
 End EditProofs.
 
@@ -277,5 +287,94 @@ Proof.
 Qed.
 
 Lemma update_sizes_not_needed : forall (A : Type) (rname : A -> text) (rid : A -> positive) (order : list text) (l : list A) (new : A),
-  update_sizes_records A rname rid order l false new = l.
-Proof. intros. unfold update_sizes_records. destruct (get_records A rname l s_SIZES 0); reflexivity. Qed.
+  update_sizes_records A rname rid order l false new = Some l.
+Proof. intros. unfold update_sizes_records. destruct (filter _ l); reflexivity. Qed.
+
+Section SizesProofs.
+  Variable A : Type.
+  Variable rname : A -> text.
+  Variable rid : A -> positive.
+  Variable order : list text.
+  Variable rstr : A -> text.
+
+  (* replacing one record object that occurs once *)
+  Lemma replace_records_single : forall pre r0 post new,
+    (forall x, In x (pre ++ post) -> Pos.eqb (rid r0) (rid x) = false) ->
+    replace_records A rid (pre ++ r0 :: post) [r0] [new] = pre ++ new :: post.
+  Proof.
+    intros pre r0 post new H. unfold replace_records.
+    assert (forall l first, (forall x, In x l -> Pos.eqb (rid r0) (rid x) = false) ->
+                            replace_records_go A rid [r0] [new] first l = l) as Z.
+    { induction l as [|x l IH]; intros first Hl; [reflexivity|]. cbn [replace_records_go mem_id existsb].
+      rewrite (Hl x (or_introl eq_refl)). cbn [orb negb]. f_equal. apply IH. intros y Hy. apply Hl. right. exact Hy. }
+    induction pre as [|x pre IH].
+    - cbn [app replace_records_go mem_id existsb]. rewrite Pos.eqb_refl. cbn [orb negb app]. f_equal.
+      apply Z. intros x Hx. apply H. exact Hx.
+    - cbn [app replace_records_go mem_id existsb]. rewrite (H x (or_introl eq_refl)). cbn [orb negb]. f_equal.
+      apply IH. intros y Hy. apply H. right. exact Hy.
+  Qed.
+
+  Lemma filter_first_split : forall (p : A -> bool) l r0 tl, filter p l = r0 :: tl ->
+    exists pre post, l = pre ++ r0 :: post /\ forallb (fun x => negb (p x)) pre = true.
+  Proof.
+    intros p. induction l as [|x l IH]; intros r0 tl H; [discriminate|]. cbn [filter] in H. destruct (p x) eqn:E.
+    - injection H as -> _. exists [], l. split; reflexivity.
+    - destruct (IH r0 tl H) as [pre [post [-> F]]]. exists (x :: pre), post. split; [reflexivity|]. cbn. rewrite E. exact F.
+  Qed.
+
+  (* an unmodified model whose $SIZES record already says what is needed: the text does not change
+     (record objects are distinct: rid is injective on the stream) *)
+  Lemma update_sizes_same_text : forall l r0 tl new needed,
+    NoDup (map rid l) ->
+    filter (name_is A rname s_SIZES) l = r0 :: tl -> rstr new = rstr r0 ->
+    exists l', update_sizes_records A rname rid order l needed new = Some l' /\ flat_map rstr l' = flat_map rstr l.
+  Proof.
+    intros l r0 tl new needed ND F E. unfold update_sizes_records. rewrite F.
+    destruct needed; [|eexists; split; reflexivity].
+    destruct (filter_first_split _ _ _ _ F) as [pre [post [-> _]]].
+    eexists. split; [reflexivity|]. rewrite replace_records_single.
+    - rewrite !flat_map_app. cbn [flat_map]. rewrite E. reflexivity.
+    - intros x Hx. destruct (Pos.eqb (rid r0) (rid x)) eqn:Q; [|reflexivity]. apply Pos.eqb_eq in Q. exfalso.
+      rewrite map_app in ND. cbn [map] in ND. apply NoDup_remove_2 in ND. apply ND.
+      rewrite <- map_app. rewrite Q. apply in_map. exact Hx.
+  Qed.
+
+  (* a new $SIZES record is put before the first $PROBLEM, so the SIZES-before-PROBLEM rule still holds *)
+  Fixpoint sizes_rule (in_problem : bool) (l : list A) : bool :=
+    match l with
+    | [] => true
+    | r :: tl => if in_problem && name_is A rname s_SIZES r then false
+                 else sizes_rule (in_problem || name_is A rname s_PROBLEM r) tl
+    end.
+
+  Lemma first_named_split : forall n l i k, first_named A rname n k l = Some i ->
+    exists pre r post, l = pre ++ r :: post /\ length pre = i - k /\ k <= i /\
+                       forallb (fun x => negb (name_is A rname n x)) pre = true /\ name_is A rname n r = true.
+  Proof.
+    intros n. induction l as [|x l IH]; intros i k H; [discriminate|]. cbn [first_named] in H. destruct (name_is A rname n x) eqn:E.
+    - injection H as <-. exists [], x, l. repeat split; auto. cbn. lia.
+    - destruct (IH i (S k) H) as [pre [r [post [-> [L [K [F N]]]]]]]. exists (x :: pre), r, post.
+      repeat split; auto; [cbn; lia | lia | cbn; rewrite E; exact F].
+  Qed.
+
+  Lemma sizes_rule_skip : forall pre rest, forallb (fun x => negb (name_is A rname s_PROBLEM x)) pre = true ->
+    sizes_rule false (pre ++ rest) = sizes_rule false rest.
+  Proof.
+    induction pre as [|x pre IH]; intros rest H; [reflexivity|]. cbn [forallb] in H. apply andb_true_iff in H. destruct H as [H1 H2].
+    apply negb_true_iff in H1. cbn [app sizes_rule andb orb]. rewrite H1. apply IH. exact H2.
+  Qed.
+
+  Lemma update_sizes_insert_keeps_rule : forall l new l',
+    filter (name_is A rname s_SIZES) l = [] -> name_is A rname s_PROBLEM new = false ->
+    update_sizes_records A rname rid order l true new = Some l' ->
+    sizes_rule false l = true -> sizes_rule false l' = true /\ exists pre post, l = pre ++ post /\ l' = pre ++ new :: post.
+  Proof.
+    intros l new l' F NP H R. unfold update_sizes_records in H. rewrite F in H.
+    destruct (first_named A rname s_PROBLEM 0 l) as [i|] eqn:FN; [|discriminate]. injection H as <-.
+    destruct (first_named_split _ _ _ _ FN) as [pre [r [post [-> [L [_ [Fp Nr]]]]]]].
+    unfold insert_record, insert_pos. rewrite Nat.sub_0_r in L. subst i.
+    rewrite firstn_app, firstn_all, Nat.sub_diag, skipn_app, skipn_all, Nat.sub_diag. cbn [firstn skipn app]. rewrite app_nil_r.
+    split; [|exists pre, (r :: post); split; reflexivity].
+    rewrite sizes_rule_skip in * by exact Fp. cbn [sizes_rule andb orb]. rewrite NP. exact R.
+  Qed.
+End SizesProofs.
